@@ -105,6 +105,30 @@ fn apply(r: &mut Real, st: &Step) -> Obs {
                 "min" => (t.min().copied().unwrap_or(-1), -1, s.min().copied().unwrap_or(-1)),
                 "max" => (t.max().copied().unwrap_or(-1), -1, s.max().copied().unwrap_or(-1)),
                 "len" => (t.len() as i64, -1, s.len() as i64),
+                "is_empty" => (t.is_empty() as i64, -1, s.is_empty() as i64),
+                "get_mut" => {
+                    // write through the handed-out reference; report the value found before
+                    let old = match t.get_mut(k) {
+                        Some(slot) => {
+                            let o = *slot;
+                            *slot = *v;
+                            o
+                        }
+                        None => -1,
+                    };
+                    (old, -1, -2)
+                }
+                "index" => (if t.contains(k) { t[k] } else { -1 }, -1, -2),
+                "index_mut" => {
+                    // t[&k] = v (only for stored keys: Index panics otherwise, by contract)
+                    if t.contains(k) {
+                        let old = t[k];
+                        t[k] = *v;
+                        (old, -1, -2)
+                    } else {
+                        (-1, -1, -2)
+                    }
+                }
                 "clear" => {
                     t.clear();
                     s.clear();
@@ -285,7 +309,7 @@ pub fn replay_graph(path: &str) {
                             0
                         }
                     }
-                    "get" => -2,
+                    "get" | "get_mut" | "index" | "index_mut" => -2,
                     _ => eret,
                 };
                 let contract_ok = ob.ret == eret && ob.rv == erv && ob.len == elen && ob.set_ret == set_expected && ob.set_len == elen;
@@ -338,6 +362,9 @@ pub fn histories(runs: u64, len: usize, keys: i64, seed: u64) {
         let mut ev: Vec<String> = vec![];
         let mut vc = 0i64;
         let mut held: Option<(i64, *const i64)> = None;
+        // which keys were inserted and not removed - only used to CHOOSE an operation (Index needs a
+        // stored key); asking the tree itself would splay it behind the recorded history's back
+        let mut present: std::collections::BTreeSet<i64> = std::collections::BTreeSet::new();
         let mut i = 0;
         while i < len {
             i += 1;
@@ -349,11 +376,13 @@ pub fn histories(runs: u64, len: usize, keys: i64, seed: u64) {
                     vc += 1;
                     held = None;
                     let r = t.insert(k, vc).unwrap_or(-1);
+                    present.insert(k);
                     let _ = write!(e, "{{\"op\":\"insert\",\"k\":{},\"v\":{},\"ret\":{},\"rv\":-1", k, vc, r);
                 }
                 3 | 4 => {
                     held = None;
                     let r = t.remove(&k).unwrap_or(-1);
+                    present.remove(&k);
                     let _ = write!(e, "{{\"op\":\"remove\",\"k\":{},\"v\":0,\"ret\":{},\"rv\":-1", k, r);
                 }
                 5 => {
@@ -379,10 +408,42 @@ pub fn histories(runs: u64, len: usize, keys: i64, seed: u64) {
                 11 => {
                     let _ = write!(e, "{{\"op\":\"max\",\"k\":0,\"v\":0,\"ret\":{},\"rv\":-1", t.max().copied().unwrap_or(-1));
                 }
+                12 if rng.chance(1, 3) => {
+                    // the value slot handed out by get_mut / IndexMut, and Index / is_empty
+                    match rng.below(4) {
+                        0 => {
+                            vc += 1;
+                            held = None;
+                            let old = match t.get_mut(&k) {
+                                Some(slot) => {
+                                    let o = *slot;
+                                    *slot = vc;
+                                    o
+                                }
+                                None => -1,
+                            };
+                            let _ = write!(e, "{{\"op\":\"get_mut\",\"k\":{},\"v\":{},\"ret\":{},\"rv\":-1", k, vc, old);
+                        }
+                        1 if present.contains(&k) => {
+                            vc += 1;
+                            held = None;
+                            let old = t[&k];
+                            t[&k] = vc;
+                            let _ = write!(e, "{{\"op\":\"index_mut\",\"k\":{},\"v\":{},\"ret\":{},\"rv\":-1", k, vc, old);
+                        }
+                        2 if present.contains(&k) => {
+                            let _ = write!(e, "{{\"op\":\"index\",\"k\":{},\"v\":0,\"ret\":{},\"rv\":-1", k, t[&k]);
+                        }
+                        _ => {
+                            let _ = write!(e, "{{\"op\":\"is_empty\",\"k\":0,\"v\":0,\"ret\":{},\"rv\":-1", t.is_empty() as i64);
+                        }
+                    }
+                }
                 12 => {
                     if rng.chance(1, 6) {
                         held = None;
                         t.clear();
+                        present.clear();
                         let _ = write!(e, "{{\"op\":\"clear\",\"k\":0,\"v\":0,\"ret\":-1,\"rv\":-1");
                     } else {
                         let _ = write!(e, "{{\"op\":\"len\",\"k\":0,\"v\":0,\"ret\":{},\"rv\":-1", t.len());
